@@ -31,12 +31,17 @@ ASSUME = [
     "quinn endpoint driver keep accepting bytes and streams, nobody answers multistream-select); substream open timeout 1 s, "
     "the answer may take 7 s, the remote is released after 3 s so that the link itself stays alive; not judged if the link "
     "ended meanwhile",
+    "a protocol that is slow to drain its events: the harness fills the protocol's 4096-slot inbox with filler events "
+    "(skipped silently when the service is polled) right before a connection hands it a substream result; the connection's "
+    "report call stays suspended (it can do nothing else) until a slot is free. An answer that is refused or dropped there "
+    "leaves the request unanswered (judged at quiescence); a lost INBOUND substream is only recorded (inbound:err / "
+    "deliver:err in full_inbox_deliveries), the statement does not demand its delivery",
     "TLC bounds: see model_runs / generation in the evidence (1-2 peers, up to 3 connection ids per peer, up to 3 open "
     "requests, inbound substreams, force_close, keep-alive expiry, window between report_connection_closed and task end)",
 ]
 
 BASE = {"Peers": {"p1"}, "Svc": {0, 1}, "KAs": "<- KADef", "MaxCid": 3, "MaxPerPeer": 3, "MaxOverlap": 2,
-        "MaxOpens": 0, "MaxInb": 0, "MaxFc": 0, "MaxExp": 0, "Eager": "<- NoEager", "EagerCmd": False,
+        "MaxOpens": 0, "MaxInb": 0, "MaxFc": 0, "MaxExp": 0, "MaxFull": 0, "PCap": 4096, "Eager": "<- NoEager", "EagerCmd": False,
         "SplitClose": False, "Clog": False, "Bug": "none"}
 MC_INV = ["SPECIFICATION Spec", "INVARIANTS MonOK QuiesceOK IdsBelow NoPanicInScope", "VIEW View", "CHECK_DEADLOCK FALSE"]
 NEG_INV = ["SPECIFICATION Spec", "INVARIANTS MonOK QuiesceOK NoPanicInScope", "VIEW View", "CHECK_DEADLOCK FALSE"]
@@ -80,6 +85,8 @@ def mc_configs(ctx):
             ("keepalive", cfg(MaxCid=2, MaxPerPeer=2, MaxOpens=1, MaxInb=1, MaxExp=3, KAs="<- KAAny", Eager=E1, EagerCmd=True)),
             # two peers
             ("peers2", cfg(Peers=P2, MaxPerPeer=2, MaxOpens=2, Eager="= {0, 1}", EagerCmd=True)),
+            # substream results handed to a protocol whose inbox is full (suspended report call, Deliver)
+            ("full", cfg(MaxCid=2, MaxPerPeer=2, MaxOpens=2, MaxInb=1, MaxFull=1, Eager=E1)),
         ]
     return [
         ("life3", cfg(MaxCid=4, MaxPerPeer=4, MaxOverlap=3, MaxInb=1, Clog=True)),
@@ -91,6 +98,8 @@ def mc_configs(ctx):
         ("peers2", cfg(Peers=P2, MaxCid=4, MaxPerPeer=2, MaxOpens=1, Eager=E1, EagerCmd=True)),
         # 2 peers, up to 3 connection ids per peer
         ("peers2x3", cfg(Peers=P2, MaxCid=5, MaxPerPeer=3, MaxOpens=2, Eager="= {0, 1}", EagerCmd=True)),
+        ("full", cfg(MaxCid=2, MaxPerPeer=2, MaxOpens=2, MaxInb=1, MaxFull=1, Eager=E1)),
+        ("full_lazy", cfg(MaxCid=2, MaxPerPeer=2, MaxOpens=2, MaxFull=2)),
     ]
 
 
@@ -105,6 +114,7 @@ def gen_configs(ctx):
             ("window", cfg(MaxCid=2, MaxPerPeer=2, MaxOpens=1, MaxFc=1, SplitClose=True, Eager=E1)),
             ("keepalive", cfg(MaxCid=2, MaxPerPeer=2, MaxOpens=1, MaxExp=2, Eager=E1, EagerCmd=True)),
             ("peers2", cfg(Peers=P2, MaxCid=2, MaxPerPeer=2, MaxOpens=1, Eager=E1)),
+            ("full", cfg(MaxCid=2, MaxPerPeer=2, MaxOpens=1, MaxInb=1, MaxFull=1, Eager=E1)),
         ]
     return [
         ("life", cfg(MaxInb=1, Clog=True)),
@@ -113,6 +123,8 @@ def gen_configs(ctx):
         ("window", cfg(MaxCid=2, MaxPerPeer=2, MaxOpens=2, MaxFc=1, SplitClose=True, Eager=E1)),
         ("keepalive", cfg(MaxCid=2, MaxPerPeer=2, MaxOpens=1, MaxExp=2, KAs="<- KAAny", Eager=E1, EagerCmd=True)),
         ("peers2", cfg(Peers=P2, MaxCid=2, MaxPerPeer=2, MaxOpens=1, MaxInb=1, Eager=E1)),
+        ("full", cfg(MaxCid=2, MaxPerPeer=2, MaxOpens=1, MaxInb=1, MaxFull=1, Eager=E1)),
+        ("full_lazy", cfg(MaxCid=1, MaxPerPeer=1, MaxOpens=2, MaxInb=1, MaxFull=2)),
     ]
 
 
@@ -198,6 +210,13 @@ FIXED = [
                                    S("cmd", c=1), S("close", c=1, clog=-1), S("open", q=1, p="p1"), S("drop", c=1), S("poll", q=1),
                                    S("open", q=1, p="p1"), S("cmd", c=2), S("reply", c=2, id=2, ok=True), S("poll", q=1),
                                    S("poll", q=0), S("close", c=2, clog=0)]},
+    # the answers to accepted requests (success, failure) and an inbound substream arrive at a protocol whose inbox
+    # is full: the connection's report call is suspended and completes once the protocol has drained something
+    {"ka": [True, False], "stims": [S("est", p="p1", c=1), S("poll", q=0), S("poll", q=1), S("open", q=0, p="p1"),
+                                    S("open", q=0, p="p1"), S("cmd", c=1), S("cmd", c=1), S("reply", c=1, id=0, ok=True, full=True),
+                                    S("deliver", c=1), S("poll", q=0), S("deliver", c=1), S("poll", q=0),
+                                    S("reply", c=1, id=1, ok=False, full=True), S("poll", q=0), S("deliver", c=1), S("poll", q=0),
+                                    S("inbound", c=1, q=1, full=True), S("poll", q=1), S("deliver", c=1), S("poll", q=1)]},
 ]
 
 
@@ -215,6 +234,13 @@ def classify(seg, idx, reason):
     if head.get("src") == "net":
         # real nodes: transport and scenario kind are part of the signature
         return "net-%s-%s%s" % (head.get("transport", "tcp"), "open-timeout-" if head.get("kind") == "timeout" else "", slug(reason))
+    if reason.startswith("accepted open request never answered"):
+        # why: did a connection try to hand the answer over and get refused?
+        for ln in seg[:idx]:
+            d = json.loads(ln)
+            if d.get("e") == "step" and d["s"]["a"] in ("reply", "deliver") and d["s"].get("what", "reply") == "reply" \
+                    and d["ret"].get("k") == "err":
+                return "open-answer-refused-%s" % ("by-full-protocol-inbox" if "Clogged" in d["ret"].get("err", "") else "by-protocol-channel")
     if reason == "panic":
         msg = ev.get("ret", {}).get("msg", "")
         return "panic-in-%s%s" % (s.get("a", "?"), "-debug-assert" if "assertion failed" in msg else "")
@@ -322,6 +348,8 @@ def evidence(mc, gstats, summ, lines, nseg, nev, drift):
         "impl_divergences": len(drift),
         "third_connection_executions": third,
         "third_connection_panics": third_panics,
+        "full_inbox_deliveries": {k: results.get(k, 0) for k in ("reply:blocked", "inbound:blocked", "deliver:ok", "deliver:blocked",
+                                                                    "reply:err", "inbound:err", "deliver:err")},
         "c07_ordering_probes": probes,
         "c07_ordering_probes_effective": probe_blocked,
         "exhaustive": False,
@@ -329,7 +357,8 @@ def evidence(mc, gstats, summ, lines, nseg, nev, drift):
 
 
 NEEDED_RESULTS = ["poll:est", "poll:closed", "poll:opened", "poll:failed", "open:ok", "open:err", "cmd:open", "cmd:none",
-                  "cmd:force", "reply:ok", "inbound:ok", "inbound:nopermit", "drop:ok", "expire:ok", "fclose:ok", "close:ok"]
+                  "cmd:force", "reply:ok", "inbound:ok", "inbound:nopermit", "drop:ok", "expire:ok", "fclose:ok", "close:ok",
+                  "reply:blocked", "inbound:blocked", "deliver:ok", "deliver:blocked"]
 
 
 def check(ctx):
@@ -342,10 +371,14 @@ def check(ctx):
                            "replay_obj": {"property": "C08", "reason": r.reason, "signature": sig,
                                           "segment": [json.loads(x) for x in seg[:idx]]}})
     cov = evidence(mc, gstats, summ, lines, nseg, nev, drift)
+    # coverage is demanded of a run that found nothing; a run with rejected executions reports those
+    # (a changed code path can make an outcome class disappear, e.g. a call that no longer blocks)
     missing = [k for k in NEEDED_RESULTS if not cov["results_observed"].get(k)]
-    if missing:
+    if missing and not violations:
         raise ToolError("coverage: these outcomes were never observed on the real code: %s" % missing)
-    if cov["c07_ordering_probes"] == 0 or cov["c07_ordering_probes_effective"] == 0:
+    if missing:
+        ctx.notes.append("outcomes never observed in this run: %s" % missing)
+    if (cov["c07_ordering_probes"] == 0 or cov["c07_ordering_probes_effective"] == 0) and not violations:
         raise ToolError("coverage: the protocols-before-manager probe never blocked report_connection_closed")
     log("C07 cross-check (protocols before manager): %d probes, %d effective (call suspended on a full protocol inbox), "
         "manager told early in %d" % (cov["c07_ordering_probes"], cov["c07_ordering_probes_effective"],
@@ -372,6 +405,8 @@ NEG = [
     ("answer_lost", cfg(MaxCid=1, MaxPerPeer=1, MaxOpens=1, Bug="answer_lost"), "QuiesceOK", None),
     ("id_reuse", cfg(MaxCid=1, MaxPerPeer=1, MaxOpens=2, Bug="id_reuse"), "MonOK", "identifier reused"),
     ("mgr_first", cfg(MaxInb=1, Bug="mgr_first", Eager=E1), "MonOK|NoPanicInScope", "not connected|panic"),
+    # try_send instead of send().await when handing a substream result to a protocol with a full inbox
+    ("drop_on_full", cfg(MaxCid=1, MaxPerPeer=1, MaxOpens=1, MaxFull=1, Bug="drop_on_full"), "QuiesceOK", None),
 ]
 
 
@@ -453,6 +488,8 @@ def selftest(ctx):
                 lambda e, i2=i2: e["ret"].update(id=earlier_id(i2)), "identifier reused")
     else:
         ok = False
+    corrupt("delivery into a full inbox dropped", isret("deliver", "ok"), lambda e: e["ret"].update(k="err"),
+            "does not match|never answered|nobody reported")
     corrupt("manager told early", isret("close", "ok"), lambda e: e["ret"].update(early=True), "manager told")
     corrupt("answer to the wrong protocol", lambda d: isret("poll", "failed")(d) or (isret("poll", "opened")(d) and d["ret"]["dirn"] == "out"),
             lambda e: e["s"].update(q=1 - e["s"]["q"]), "another protocol")
